@@ -17,7 +17,16 @@
 
 using namespace hx;
 
-struct P { long x = 0, y = 0; };
+// the move constructor empties its source (like std::vector / std::string): an instance built from a moved-from object is visibly wrong
+struct P {
+  long x = 0, y = 0;
+  P() = default;
+  P(long a, long b) : x(a), y(b) {}
+  P(const P&) = default;
+  P& operator=(const P&) = default;
+  P(P&& o) noexcept : x(o.x), y(o.y) { o.x = -1000; o.y = -2000; }
+  P& operator=(P&& o) noexcept { x = o.x; y = o.y; o.x = -1000; o.y = -2000; return *this; }
+};
 
 struct CounterSpec {
   using State = long;
@@ -33,8 +42,13 @@ struct CounterSpec {
 struct LrAdapter : Adapter {
   xenium::left_right<P>* lr = nullptr;
   const char* which(const P& p) const { return &p == &lr->_left ? "left" : "right"; }
-  void setup(const Case&) override {
-    lr = new xenium::left_right<P>();
+  long init_v = 0;
+  void setup(const Case& cs) override {
+    // cfg init=v: built with the one-argument constructor from the value {v, v}; init2=v: two-argument constructor; default: left_right()
+    init_v = cs.geti("init", cs.geti("init2", 0));
+    if (cs.geti("init", 0) != 0) lr = new xenium::left_right<P>(P(init_v, init_v));
+    else if (cs.geti("init2", 0) != 0) lr = new xenium::left_right<P>(P(init_v, init_v), P(init_v, init_v));
+    else lr = new xenium::left_right<P>();
     xv::Quiet q;
     xv::name_range(&lr->_writer_mutex, sizeof lr->_writer_mutex, "mutex");
     xv::name_range(&lr->_version_index, sizeof lr->_version_index, "version");
@@ -79,7 +93,7 @@ struct LrAdapter : Adapter {
     delete lr;
   }
   bool check(const Case&, const std::vector<OpRec>& h, const std::vector<std::string>& fin, std::string& why) override {
-    long total = 0;
+    long total = init_v;
     for (auto& o : h) {
       if ((o.name == "read" || o.name == "readref") && o.done && o.res.rfind("mixed", 0) == 0) { why = std::string(o.name == "read" ? "a read functor observed an instance in the middle of an update: " : "the value returned by read() is a mixture of two states: ") + o.res; return false; }
       if (o.name == "update" && o.done) total += o.args[0];
@@ -87,7 +101,7 @@ struct LrAdapter : Adapter {
     // every completed update applied exactly once to each instance
     bool all_done = true; for (auto& o : h) if (!o.done) all_done = false;
     if (all_done && !fin.empty()) { std::string want = "final " + std::to_string(total) + " " + std::to_string(total) + " " + std::to_string(total) + " " + std::to_string(total); if (fin[0] != want) { why = "updates were not applied exactly once to both instances: " + fin[0] + " expected " + want; return false; } }
-    CounterSpec sp; LinCheck<CounterSpec> lc(sp, h);
+    CounterSpec sp; sp.init = init_v; LinCheck<CounterSpec> lc(sp, h);
     if (!lc.ok()) { why = "history is not linearizable w.r.t. a counter register (reads vs updates)"; return false; }
     return true;
   }
